@@ -101,11 +101,18 @@ def oracle(prog, res):
             v.append(("observer_mismatch", f"{o['op'][2]} created {len(o['created'])} named semaphores, expected {EXPECTED_SEMS[o['op'][2]]}"))
         if o.get("op") and o["op"][0] == "del" and o.get("still_there"):
             v.append(("semaphore_survives_its_object", f"after del+gc of {o['op'][1]}: {o['still_there']} still in /dev/shm"))
+    for o in out:
+        if o.get("missing_live"):
+            v.append(("live_semaphore_unlinked", f"named semaphores of objects that are still alive vanished from /dev/shm: {o['missing_live'][:4]}"))
     if res["session_left"]:
         v.append(("tree_did_not_end", f"processes of the driver's session still alive 30 s after it ended: {res['session_left']}"))
-    elif res["sems_after"]:
-        v.append(("semaphore_outlives_tree", f"ending={prog['ending']}: after the tree and its tracker ended, {len(res['sems_after'])} "
-                  f"entries remain: {res['sems_after'][:5]}"))
+    else:
+        # (entries that were already there when the driver started belong to an earlier process that had the same pid)
+        stale = set(out[0].get("sems") or [])
+        left = [x for x in res["sems_after"] if x not in stale]
+        if left:
+            v.append(("semaphore_outlives_tree", f"ending={prog['ending']}: after the tree and its tracker ended, {len(left)} "
+                      f"entries remain: {left[:5]}"))
     if prog["ending"] == "release_all_then_exit" and ("leaked semlock" in res.get("err", "") or "resource_tracker: /loky" in res.get("err", "")):
         v.append(("leak_reported_for_released_objects", res["err"][-400:]))
     if prog["ending"] in ("release_all_then_exit", "exit") and res["rc"] != 0:
@@ -129,6 +136,7 @@ def real_shard(seed, n, tier="quick"):
         kinds = [k for k in KINDS if not (ending in ("sigkill", "os_exit") and k == "executor")]
         ops = []
         live = []
+        unlinked = set()
         nobj = 0
         for _ in range(draw(st.integers(1, 8))):
             what = draw(st.sampled_from(["new", "new", "new", "del", "send", "submit", "unlink_behind"]))
@@ -146,10 +154,11 @@ def real_shard(seed, n, tier="quick"):
                 if what == "del":
                     ops.append(["del", key])
                     live.remove((key, kind))
-                elif what == "send" and kind != "executor":
+                elif what == "send" and kind != "executor" and key not in unlinked:
                     ops.append(["send", key, draw(st.sampled_from([0, 0.05]))])
                 elif what == "unlink_behind" and kind != "executor":
                     ops.append(["unlink_behind", key])
+                    unlinked.add(key)
                 elif what == "submit" and kind == "executor":
                     ops.append(["submit", key, draw(st.integers(0, 9))])
         if ending == "broken_then_exit":
@@ -158,7 +167,7 @@ def real_shard(seed, n, tier="quick"):
             ending = "exit"
         if ending == "sigkill":
             ops.insert(draw(st.integers(0, len(ops))), ["pause_for_kill"])
-        return {"ops": ops, "ending": ending}
+        return {"ops": ops, "ending": ending, "threads_first": draw(st.sampled_from([0, 0, 2, 4]))}
 
     @hypothesis.seed(seed)
     @settings(max_examples=n, database=None, deadline=None, suppress_health_check=list(HealthCheck), report_multiple_bugs=False,
